@@ -23,6 +23,8 @@ type astScanOpts struct {
 }
 
 type scanOpts struct {
+	// entry points from which the scanned cone is extended by reachability
+	ReachableFrom []string `json:"reachable_from"`
 	// functions allowed to call random / clock sources
 	RandomAllowed []string `json:"random_allowed"`
 }
@@ -770,4 +772,95 @@ func pinsResult(fc *FuncContract) bool {
 		}
 	}
 	return false
+}
+
+// reachableFrom: the functions of the module that can run when one of the entry points is
+// called (class-hierarchy approximation): static callees, closures and function values that
+// are mentioned, and for an interface method call every module type that implements the
+// interface. Used to scan for sources of nondeterminism outside the hand-written cone.
+func (x *Exec) reachableFrom(entries []string) []*ssa.Function {
+	seen := map[*ssa.Function]bool{}
+	var work []*ssa.Function
+	add := func(f *ssa.Function) {
+		if f == nil || seen[f] || !inModule(f) {
+			return
+		}
+		if strings.HasPrefix(f.Synthetic, "bound method wrapper") || strings.HasPrefix(f.Synthetic, "wrapper") || strings.HasPrefix(f.Synthetic, "thunk") {
+			if tf, ok := f.Object().(*types.Func); ok {
+				if real := x.ld.prog.FuncValue(tf); real != nil {
+					f = real
+					if seen[f] {
+						return
+					}
+				}
+			}
+		}
+		if len(f.Blocks) == 0 {
+			return
+		}
+		seen[f] = true
+		work = append(work, f)
+	}
+	for _, k := range entries {
+		add(x.ld.funcs[k])
+	}
+	// all named types of the module, for interface dispatch
+	var named []*types.Named
+	for _, p := range x.ld.ppkgByName {
+		if p.Types == nil {
+			continue
+		}
+		sc := p.Types.Scope()
+		for _, n := range sc.Names() {
+			if tn, ok := sc.Lookup(n).(*types.TypeName); ok {
+				if nt, ok := tn.Type().(*types.Named); ok {
+					named = append(named, nt)
+				}
+			}
+		}
+	}
+	for len(work) > 0 {
+		f := work[len(work)-1]
+		work = work[:len(work)-1]
+		for _, b := range f.Blocks {
+			for _, in := range b.Instrs {
+				for _, op := range in.Operands(nil) {
+					if op == nil || *op == nil {
+						continue
+					}
+					if fn, ok := (*op).(*ssa.Function); ok {
+						add(fn)
+					}
+				}
+				ci, ok := in.(ssa.CallInstruction)
+				if !ok {
+					continue
+				}
+				c := ci.Common()
+				if c.IsInvoke() {
+					iface, ok := c.Value.Type().Underlying().(*types.Interface)
+					if !ok {
+						continue
+					}
+					for _, nt := range named {
+						for _, t := range []types.Type{nt, types.NewPointer(nt)} {
+							if types.IsInterface(t) || !types.Implements(t, iface) {
+								continue
+							}
+							ms := x.ld.prog.MethodSets.MethodSet(t)
+							if sel := ms.Lookup(c.Method.Pkg(), c.Method.Name()); sel != nil {
+								add(x.ld.prog.MethodValue(sel))
+							}
+						}
+					}
+				}
+			}
+		}
+	}
+	var out []*ssa.Function
+	for f := range seen {
+		out = append(out, f)
+	}
+	sort.Slice(out, func(i, j int) bool { return funcKey(out[i]) < funcKey(out[j]) })
+	return out
 }
